@@ -813,7 +813,7 @@ def archs_for(tier):
 
 def build_jobs(tier, seed):
     jobs = []
-    tiny_eps = 16 * 10 if tier == "quick" else 16 * 900
+    tiny_eps = 16 * 10 if tier == "quick" else 16 * 500
     per = 5 if tier == "quick" else 60
     archs = archs_for(tier)
     for first in range(0, tiny_eps, per):
@@ -821,7 +821,7 @@ def build_jobs(tier, seed):
         faults = (first // per) % 4 != 3  # every fourth job is a fault-free batch (separate oracle config)
         jobs.append({"arch": arch, "tiny": True, "first": first, "n": per, "seed": seed, "tier": tier, "faults": faults,
                      "tag": "history" if faults else "history-faultfree"})
-    full_eps = 32 if tier == "quick" else 1600
+    full_eps = 32 if tier == "quick" else 800
     perf = 2 if tier == "quick" else 20
     for first in range(0, full_eps, perf):
         arch = archs[(first // perf) % len(archs)]
